@@ -149,6 +149,7 @@ def build_world(tape, tier):
                        ("acov_b", "acov"), ("tcov_null", "tcov"), ("access_unsorted", "access"),
                        ("regions_nested", "access"),
                        ("cnr_mirror", "cnr"), ("cnr_chr1", "cnr"), ("cnr_ontarget", "cnr"),
+                       ("cnr_relabelled", "cnr"), ("cns_relabelled", "cns"),
                        ("varr_empty", "varr"),
                        ("varr_nozyg", "varr"),
                        ("baits_chr1", "baits")):
@@ -588,7 +589,9 @@ def ch_cna_method(W, t, info):
     p = {"which": which, "hapx": t.chance(1, 2, "cm.hapx"),
          "parx": t.choice([None, "grch38"], "cm.parx"), "segments": False}
     if which == "residuals" and t.chance(2, 3, "cm.segs"):
-        ents.append(W.pick(t, "cns", label="cm.cns"))
+        # segments with log2, or plain coordinate regions (the third documented form)
+        ents.append(W.pick(t, "cns", label="cm.cns") if t.chance(1, 2, "cm.segs_kind")
+                    else W.pick(t, "access", "targets", label="cm.regions"))
         p["segments"] = True
     if which == "add_concat":
         ents.append(W.pick(t, "cnr", "tcov", "acov", label="cm.other"))
@@ -707,23 +710,23 @@ OPS = {
     "target": (ch_target, run_target, "targets", 5, False),
     "antitarget": (ch_antitarget, run_antitarget, "antitargets", 3, False),
     "fix": (ch_fix, run_fix, "cnr", 4, True),
-    "segment": (ch_segment, run_segment, "cns", 6, True),
-    "segmetrics": (ch_segmetrics, run_segmetrics, "cns", 5, True),
-    "call": (ch_call, run_call, "cns", 6, False),
-    "genemetrics": (ch_genemetrics, run_genemetrics, None, 2, False),
-    "breaks": (ch_breaks, run_breaks, None, 2, False),
-    "bintest": (ch_bintest, run_bintest, None, 2, False),
-    "metrics": (ch_metrics, run_metrics, None, 2, False),
+    "segment": (ch_segment, run_segment, "cns", 4, True),
+    "segmetrics": (ch_segmetrics, run_segmetrics, "cns", 4, True),
+    "call": (ch_call, run_call, "cns", 5, False),
+    "genemetrics": (ch_genemetrics, run_genemetrics, None, 3, False),
+    "breaks": (ch_breaks, run_breaks, None, 3, False),
+    "bintest": (ch_bintest, run_bintest, None, 4, False),
+    "metrics": (ch_metrics, run_metrics, None, 3, False),
     "export_bed": (ch_export_bed, run_export_bed, None, 2, False),
-    "export_vcf": (ch_export_vcf, run_export_vcf, None, 2, False),
-    "export_theta": (ch_export_theta, run_export_theta, None, 2, False),
+    "export_vcf": (ch_export_vcf, run_export_vcf, None, 3, False),
+    "export_theta": (ch_export_theta, run_export_theta, None, 3, False),
     "export_seg": (ch_export_seg, run_export_seg, None, 1, False),
     "center_all": (ch_center, run_center, None, 2, False),
-    "merge": (ch_merge, run_merge, None, 2, False),
-    "flatten": (ch_flatten, run_flatten, None, 2, False),
-    "subtract": (ch_subtract, run_subtract, None, 1, False),
-    "intersection": (ch_intersection, run_intersection, None, 1, False),
-    "subdivide": (ch_subdivide, run_subdivide, None, 1, False),
+    "merge": (ch_merge, run_merge, None, 3, False),
+    "flatten": (ch_flatten, run_flatten, None, 3, False),
+    "subtract": (ch_subtract, run_subtract, None, 3, False),
+    "intersection": (ch_intersection, run_intersection, None, 2, False),
+    "subdivide": (ch_subdivide, run_subdivide, None, 2, False),
     "resize": (ch_resize, run_resize, None, 1, False),
     "by_arm": (ch_by_arm, run_by_arm, None, 2, False),
     "by_gene": (ch_by_gene, run_by_gene, None, 3, False),
@@ -754,6 +757,18 @@ def _ref_evaluate(req):
 
     opname, params, snaps = req
     objs = [pickle.loads(s) for s in snaps]
+    if opname == "__write_bytes__":
+        # what the writer puts on disk for this object in a process that has written nothing yet
+        import tempfile
+        from skgenome import tabio
+        d = tempfile.mkdtemp(prefix="refw-", dir=os.environ.get("VERIF_SCRATCH"))
+        try:
+            path = os.path.join(d, "ref.out")
+            tabio.write(objs[0], path, params.get("fmt", "tab"))
+            with open(path, "rb") as fh:
+                return ("bytes", fh.read())
+        finally:
+            shutil.rmtree(d, ignore_errors=True)
     res = _guarded(OPS[opname][1], objs, params, 1)
     return D.canon(res)
 
@@ -834,7 +849,9 @@ def run_history(tape, tier, opts):
         ctx.pool_cfg["scramble_workers"] = tape.chance(1, 2, "pool.scramble")
         ctx.worker_init.append(_worker_init)
         fault_pop = tape.chance(1, 4, "hist.fault_pop")
-        n_steps = tape.weighted([(1, 2), (2, 3), (3, 3), (4, 3)], "hist.len")
+        # the quantifier bounds histories at 4 steps; longer ones are supersets (a violation is
+        # minimised back), and they amortise the cost of building the world
+        n_steps = tape.weighted([(1, 1), (2, 2), (3, 3), (4, 3), (6, 3)], "hist.len")
         if opts.get("steps"):
             n_steps = int(opts["steps"])
         # swarm: per-run operation mix (uniform / stochastic steps favoured / array methods favoured)
@@ -849,6 +866,7 @@ def run_history(tape, tier, opts):
             weights = [(nm, w * (12 if nm == "segment" else 1)) for nm, w in weights]
         ctx.probe("profile." + profile)
         writes = _WriteTracker(rundir, ctx)
+        writes.ref = ref
         last = None
         done_steps = []
         step = 0
@@ -1269,14 +1287,24 @@ def _do_write_step_inner(W, ents, params, writes, ctx, simfs, D):
         ctx.probe("write.suffix_gt_1")
     if suffixes and suffixes != list(range(1, len(suffixes) + 1)):
         ctx.probe("write.suffix_gap")
+    if not argv and getattr(writes, "ref", None) is not None:
+        # R1 for writers: the bytes on disk equal what a pristine process writes for this object
+        want = writes.ref.eval(("__write_bytes__", {"fmt": params.get("fmt", "tab")}, [ents[0].snap]))
+        if isinstance(want, tuple) and want and want[0] == "bytes" and after.get(rel) != want[1]:
+            raise Violation("R1", f"C10/R1/write/{params.get('fmt', 'tab')}",
+                            f"the {params.get('fmt', 'tab')} file written for {ents[0].name} differs from the one "
+                            f"a pristine process writes for the same object "
+                            f"({len(after.get(rel) or b'')} vs {len(want[1])} bytes)")
+        ctx.probe("write.bytes_vs_pristine")
     if not argv and params.get("sweep"):
         # format sweep: the written object and a table without a gene column, in every writer
         # format, twice each -- same bytes both times; A1 (checked by the caller) sees any change
         # made to the objects themselves
         sweep_dir = os.path.join(os.path.dirname(root), "sweep")
         os.makedirs(sweep_dir, exist_ok=True)
-        plain = [e.obj for e in W.entries if e.name == "access"]
-        for k, obj in enumerate([ents[0].obj] + plain):
+        plain = [e for e in W.entries if e.name in ("access", "access_unsorted")]
+        for k, ent in enumerate([ents[0]] + plain):
+            obj = ent.obj
             for fmt in ("tab", "bed", "bed3", "bed4", "interval", "text", "seg"):
                 sp = os.path.join(sweep_dir, f"obj{k}.{fmt}")
                 try:
@@ -1289,6 +1317,12 @@ def _do_write_step_inner(W, ents, params, writes, ctx, simfs, D):
                 if open(sp, "rb").read() != first_bytes:
                     raise Violation("W1", f"C10/W1/rewrite/{fmt}",
                                     f"writing the same object twice as {fmt} produced different bytes")
+                if getattr(writes, "ref", None) is not None:
+                    want = writes.ref.eval(("__write_bytes__", {"fmt": fmt}, [ent.snap]))
+                    if isinstance(want, tuple) and want and want[0] == "bytes" and first_bytes != want[1]:
+                        raise Violation("R1", f"C10/R1/write/{fmt}",
+                                        f"the {fmt} file written for {ent.name} (after other tables had been "
+                                        f"written in this process) differs from the one a pristine process writes")
         ctx.probe("write.format_sweep")
     if argv or params.get("fmt", "tab") != "tab":
         return
